@@ -6,6 +6,7 @@
 
 #[macro_use]
 mod core;
+mod csweep;
 mod flavor;
 mod gsweep;
 mod refmodel;
